@@ -13,13 +13,19 @@ pub struct MenuEntry {
     pub droppable: bool,
     /// Usable in definitions generated with the serde fragment.
     pub serde_ok: bool,
+    /// Usable in definitions generated with the clone fragment.
+    pub clone_ok: bool,
 }
 
 const fn e(rust: &'static str, copy: bool, token: bool, zst_counted: bool, droppable: bool, serde_ok: bool) -> MenuEntry {
-    MenuEntry { rust, copy, token, zst_counted, droppable, serde_ok }
+    MenuEntry { rust, copy, token, zst_counted, droppable, serde_ok, clone_ok: true }
 }
 
-pub const MENU: [MenuEntry; 36] = [
+const fn x(rust: &'static str, copy: bool, droppable: bool, clone_ok: bool) -> MenuEntry {
+    MenuEntry { rust, copy, token: false, zst_counted: false, droppable, serde_ok: false, clone_ok }
+}
+
+pub const MENU: [MenuEntry; 42] = [
     e("u8", true, false, false, false, true),
     e("u16", true, false, false, false, true),
     e("u32", true, false, false, false, true),
@@ -56,6 +62,12 @@ pub const MENU: [MenuEntry; 36] = [
     e("[u64; 12]", true, false, false, false, true),
     e("vtypes::A64", true, false, false, false, true),
     e("vtypes::Wide320", true, false, false, false, true),
+    e("vtypes::HugeTok", false, true, false, true, true),
+    e("f64", true, false, false, false, true),
+    x("fn(u32) -> u32", true, false, true),
+    x("*const u8", true, false, true),
+    x("Box<dyn Fn(u32) -> u32 + Send + Sync>", false, true, false),
+    x("vtypes::string::String<8>", true, false, true),
 ];
 
 /// Evaluates `$body` with `$t` bound to the menu type of index `$idx`.
@@ -98,7 +110,13 @@ macro_rules! with_menu_type {
             32 => { type $t = Vec<$crate::Tok8>; $body }
             33 => { type $t = [u64; 12]; $body }
             34 => { type $t = $crate::A64; $body }
-            _ => { type $t = $crate::Wide320; $body }
+            35 => { type $t = $crate::Wide320; $body }
+            36 => { type $t = $crate::HugeTok; $body }
+            37 => { type $t = f64; $body }
+            38 => { type $t = fn(u32) -> u32; $body }
+            39 => { type $t = *const u8; $body }
+            40 => { type $t = Box<dyn Fn(u32) -> u32 + Send + Sync>; $body }
+            _ => { type $t = $crate::string::String<8>; $body }
         }
     };
 }
